@@ -12,6 +12,8 @@
     floating-point assumption; the sequence update number k runs exactly at sample 735·k, the
     returned delta is a positive multiple of 147 that never jumps over a multiple of 735, and the
     `|next_delta| < 1/10000` branch is never taken;
+  * every register write of the exported operation list is preceded by delays that sum to a
+    multiple of 735 samples (`C07_log_on_grid`);
   * closed form of the 8-bit tempo accumulator, 0..2 ticks per update;
   * the attenuation written for a volume setting is antitone in the setting (FM carriers and
     PSG, coarse scale; the fine scale is an attenuation scale and is monotone) for every
@@ -75,6 +77,57 @@ theorem C07_play_step_grid (d : Data) (song : Song) (n : Nat) :
       rw [runSteps, ih]
       rfl
   exact step n _ 0 0
+
+/-- **Every register write of the exported log sits on the 60 Hz grid.**  In the list of
+`VGM_Writer` operations of any successful export (`Model/Vgm.run` turns it into the file: every
+`delay n` becomes waits of `n` samples, C08), the delays before any chip `write` sum to a
+multiple of 735 samples — the writes of sequence update `k` are preceded by waits of `735·k`
+samples (`C07_play_step_grid`), PCM-only steps write nothing. -/
+theorem C07_log_on_grid (d : Data) (song : Song) (tags : Vgm.Tags) (ops : List Vgm.Op)
+    (h : exportOps d song tags = .ok ops) :
+    ∀ p ∈ stamps 0 ops, isWrite p.2 = true → p.1 % 735 = 0 := by
+  unfold exportOps at h
+  generalize hps : playSong d song = ps at h
+  obtain ⟨s0, o0⟩ := ps
+  simp only at h
+  generalize hel : exportLoop d song exportFuel s0 0 0 [] = el at h
+  obtain ⟨s1, o1⟩ := el
+  simp only at h
+  split at h
+  · exact absurd h (by simp)
+  · injection h with h
+    subst h
+    have hs0 : s0 = (playSong d song).1 := by rw [hps]
+    have ho0 : o0 = (playSong d song).2 := by rw [hps]
+    have hpre : ∀ x ∈ ctorPokes ++ o0, isDelay x = false := by
+      intro x hx
+      rcases List.mem_append.mp hx with hx | hx
+      · unfold ctorPokes at hx
+        obtain ⟨w, _, rfl⟩ := List.mem_map.mp hx
+        rfl
+      · rw [ho0] at hx
+        unfold playSong at hx
+        simp only [List.mem_append, List.mem_cons, List.mem_map, List.not_mem_nil, or_false] at hx
+        rcases hx with (rfl | rfl) | ⟨w, _, rfl⟩ <;> rfl
+    have hnd := stamps_noDelay 0 (ctorPokes ++ o0) hpre
+    have hloop : ∀ p ∈ stamps 0 o1, isWrite p.2 = true → p.1 % 735 = 0 := by
+      have hc0 : ClockInv (0, s0.seqCounter, s0.pcmCounter) := by
+        have : (playSong d song).1.seqCounter = 0 ∧ (playSong d song).1.pcmCounter = 0 := by simp [playSong]
+        rw [hs0, this.1, this.2]; exact clockInv_init
+      have := exportLoop_on_grid d song exportFuel s0 0 0 [] hc0 (by omega) (by simp [delaySum]) (by simp [stamps])
+      rw [hel] at this
+      exact this
+    intro p hp hw
+    have e : ctorPokes ++ o0 ++ o1 ++ [Vgm.Op.stop, Vgm.Op.writeTag tags] =
+        (ctorPokes ++ o0) ++ (o1 ++ [Vgm.Op.stop, Vgm.Op.writeTag tags]) := by simp
+    rw [e, stamps_append, hnd.1, hnd.2, stamps_append] at hp
+    rcases List.mem_append.mp hp with hp | hp
+    · obtain ⟨x, _, rfl⟩ := List.mem_map.mp hp
+      rfl
+    · rcases List.mem_append.mp hp with hp | hp
+      · exact hloop p hp hw
+      · simp [stamps] at hp
+        rcases hp with rfl | rfl <;> simp [isWrite] at hw
 
 /-- **Tempo accumulator, closed form.**  `n` sequence updates at constant tempo `δ` from
 counter `c` play `(c + n(δ+1)) div 128` ticks and leave the counter `(c + n(δ+1)) mod 128`. -/
@@ -188,6 +241,15 @@ theorem C07_short_note_counterexample :
     (before d shortNoteSong 5).2.1 = 2205 ∧
     keyData (playStep d shortNoteSong (before d shortNoteSong 5).1).2.1 = [0] := by
   decide +kernel
+
+/-- `C07_log_on_grid` is not vacuous: the export of `shortNoteSong` succeeds and its register
+writes carry the sample times 0, 735, 2205 and 3675 -/
+example :
+    (match exportOps { ins := [] } shortNoteSong
+        { title := [], titleJ := [], game := [], gameJ := [], system := [], systemJ := [], author := [],
+          authorJ := [], date := [], creator := [], notes := [] } with
+      | .ok ops => (((stamps 0 ops).filter (fun p => isWrite p.2)).map (fun p => p.1)).eraseDups
+      | .error _ => []) = [0, 735, 2205, 3675] := by decide +kernel
 
 /-! ### the full statement (not proved; decided per export by the schedule oracle) -/
 /-- no keyed note ends inside the update it starts in: an update plays at most two ticks
